@@ -8,6 +8,7 @@ THEOREMS = ['C01_lut_correct', 'C01_dispatch2_correct', 'C01_select_prim', 'C01_
             'C01_cycles_iter_sem', 'C01_cycles_are_iter_sem', 'C01_cycle_next_state', 'C01_cycles_no_data_line', 'C01_gates_known_b_sound',
             'C01_model_c_prop_refines', 'C01_model_build_conditions', 'C01_logicsim_model_correct', 'C01_logicsim_model_capture',
             'C01_cycles_model_correct', 'C01_sim_case2_correct']
+THEOREMS += ['C01_simops_ops_source_is_model', 'C01_simops_ops_source_is_model_wf', 'C01_simops_ops_source_nonvacuous']
 
 
 def oracle_cycles(c, stim_bits, k):
@@ -45,7 +46,10 @@ def targeted_cases():
 def run(ck):
     import random
     ok_t = sk.regen_tables(ck)
+    ok_src = sc.translate_simops(ck)
     ck.prove('C01', THEOREMS)
+    if ok_src:
+        sc.run_source_corr(ck, random.Random(ck.seed * 7919 + 101), ck.scale(8, 200), 'op list')
     if ok_t:
         sk.validate_dispatch(ck, ['disp2_cpu', 'disp2_cb'])
     rng = random.Random(ck.seed * 7919 + 1)
